@@ -10,9 +10,16 @@ import "verifharness/vt"
 //	statesync-reinit-shared-node      statesync: no restart / crash in the MPT and blocks stages (MPT mode)
 //	statesync-crash-before-jump       statesync: crash point right after the last AddBlock's flush is skipped
 //	statesync-restart-lt2000-headers  statesync: no restart after the jump unless a TrustedHeader is configured
+//
+// Known-finding key of the `statesync` check (not listed: repaired in the repository):
+//
+//	statesync-trusted-header-too-recent  statesync: no TrustedHeader above the first block of the blocks stage (SCase.TrustedHigh)
+const knownTrustedTooRecent = "statesync-trusted-header-too-recent"
+
 func init() {
 	vt.PropertyID = "C20"
 	vt.Register("queue", 10.0, genQCase, checkQCase)
 	vt.Register("queue-gated", 10.0, genGCase, checkGCase)
 	vt.Register("statesync", 1.0, genSCase, checkSCase)
+	vt.Register("trusted", 0.6, genTCase, checkTCase)
 }
